@@ -535,6 +535,7 @@ class SimRun:
         self.handle_errors = []
         self.accept_loop_exc = None
         self.counters = {}
+        self.tls_plaintext = []     # (connection id, bytes) a child process wrote below the TLS session
         self.forksim = None
         self.procmem = procmem
         self.server = None
@@ -545,6 +546,8 @@ class SimRun:
         self.protocol_choices = []
         self.protocol_secure = []
         self._real_getprotocol = None
+
+    tls_plaintext = ()
 
     def count(self, k, n=1):
         self.counters[k] = self.counters.get(k, 0) + n
@@ -664,6 +667,11 @@ class SimRun:
                 run.subprocess_calls += 1
                 run.sim.yield_point("subprocess")
                 r = run._real_subprocess_run(args, **kw)
+                if r.stdout and isinstance(out._sock, simnet.SimSSLSocket):
+                    # the child inherits the descriptor of the raw socket: its output goes out BELOW the
+                    # TLS session (the client's TLS layer reads it as a broken record)
+                    run.tls_plaintext.append((out._sock._conn.id, len(r.stdout)))
+                    run.count("child_wrote_clear_text_under_tls")
                 if r.stdout:
                     # the child writes to the client socket by itself: when the connection is dead the
                     # CHILD gets the error (SIGPIPE / EPIPE); the server process never sees it
